@@ -27,5 +27,9 @@ def rp(name, L, T=4, extra=(), **kw):
              desc="request_parse on every datagram <= %d bytes (exact-size object), decoded names <= %d bytes" % (L, T))
     d.update(kw); return d
 
+LEN = ["C37_LENIENT_RDATA", "C37_LENIENT_AFTER_OPT"]
 def obligations(tier):
-    return [rp("parse_L28", 28, extra=["C37_KF_EXCLUDE_OPCODE", "C37_LENIENT_RDATA", "C37_LENIENT_AFTER_OPT"])]
+    return [rp("parse_wf_L28", 28, extra=["C37_KF_EXCLUDE_OPCODE"] + LEN),
+            rp("parse_opcode_L28", 28, extra=LEN),
+            rp("parse_strict_L28", 28, extra=["C37_KF_EXCLUDE_OPCODE"]),
+            rp("parse_allocfail_L28", 28, extra=["C37_KF_EXCLUDE_OPCODE", "C37_ALLOC_FAIL"] + LEN)]
